@@ -14,6 +14,13 @@ def colldiff(a, b):
     return 0 if ok else ["bad-message", r[:200]]
 
 
+def colldiff_msg(a, b, f, t):
+    """the message itself, as lines, for the model's checker (Model/CollDiff.v)"""
+    from xdist.report import report_collection_diff
+    r = report_collection_diff(list(a), list(b), f, t)
+    return [] if r is None else [r.split("\n")]
+
+
 def main():
     for line in sys.stdin:
         job = json.loads(line)
@@ -21,6 +28,8 @@ def main():
             k = job["kind"]
             if k == "colldiff":
                 r = colldiff(*job["case"])
+            elif k == "colldiff_msg":
+                r = colldiff_msg(*job["case"])
             elif k == "default_budget":
                 import types
                 from xdist.dsession import get_default_max_worker_restart
